@@ -585,6 +585,17 @@ Definition v_user_channels (r : ref) (kn : str) : list str :=
   List.map fst (List.filter (fun kc => is_some (alookup kn (rc_members (snd kc)))) (r_chans r)).
 Definition v_user_perms (r : ref) (kn : str) : amap perms :=
   flat_map (fun kc => match alookup kn (rc_members (snd kc)) with Some p => [(fst kc, p)] | None => [] end) (r_chans r).
+Definition v_lookup_channel (r : ref) (name : str) : option rchan :=
+  match name with [] => None | _ => alookup (key name) (r_chans r) end.
+Definition v_lookup_user (r : ref) (nick : str) : option ruser :=
+  match nick with [] => None | _ => alookup (key nick) (r_users r) end.
+Definition v_channel_users (c : rchan) : list str := List.map fst (rc_members c).
+(* the privileges of a nick in a channel, if it is a member *)
+Definition v_perm (r : ref) (chan nick : str) : option perms :=
+  match alookup (key chan) (r_chans r) with
+  | Some c => alookup (key nick) (rc_members c)
+  | None => None
+  end.
 Definition v_modes_string (l : list (N * str)) : str :=
   match l with
   | [] => []
